@@ -355,6 +355,27 @@ the segment is in `snd_buf` with `xmit = 1`, `ts = 200`, `rto = 200`, `resendts 
 example : (run (Kcp.new 1) [.send [1, 2, 3], .flush true 100, .flush true 200]).snd_buf.map
     (fun s => (s.xmit, s.ts, s.rto, s.resendts)) = [(1, 200, 200, 400)] := by decide
 
+/-- The `retx_armed` statement in full for reachable states: after a full flush at `now` of any state
+reachable from `NewKCP`, every un-acked segment of `snd_buf` that has been sent has
+`0 < itimediff resendts now ≤ rto` — its retransmission is pending and at most one `rto` away.
+Explicit side conditions: `0 < rto < 2^31`; the clock value `now` is not before the segment's last
+transmission time `ts` in the signed 32-bit comparison (no other assumption on clock values in
+the history); `xmit` has not wrapped to 0. -/
+theorem C02_retx_armed_after_flush (conv : U32) (ops : List Op) (now : U32) (s' : Seg)
+    (hs : s' ∈ (flush (run (Kcp.new conv) ops) true now).k.snd_buf) (ha : s'.acked = false) (hx : s'.xmit ≠ 0)
+    (h0 : 0 < s'.rto.toNat) (hr : s'.rto.toNat < 2 ^ 31) (hn : itimediff now s'.ts ≥ 0) :
+    0 < itimediff s'.resendts now ∧ itimediff s'.resendts now ≤ s'.rto.toNat := by
+  have hreach : (flush (run (Kcp.new conv) ops) true now).k = run (Kcp.new conv) (ops ++ [.flush true now]) := by
+    rw [run_append]; rfl
+  have ht : s'.resendts = s'.ts + s'.rto := by
+    rw [hreach] at hs
+    exact (run_timer _ _ (new_timer conv)).1 s' hs hx
+  have hnd := ((C02_retx_armed (run (Kcp.new conv) ops) now).2.2.2.1 s' hs ha h0 hr).1
+  have hrem := timer_remaining s' now ht hr hn
+  have hanti := timer_antisymm s' now ht hr hn
+  refine ⟨?_, hrem.2⟩
+  omega
+
 /-! ### `heap_top_advances` as an invariant of reachable states -/
 
 /-- `MoveFix` — a deliverable head of `rcv_buf` is blocked only by a full delivery queue — is kept by
